@@ -1,10 +1,31 @@
 import ParanoidModel.Driver.Common
 import ParanoidModel.Model.BM
+import ParanoidModel.Model.BMCpp
 import ParanoidModel.Spec.Lfsr
 namespace Paranoid.Driver
 open Paranoid.Proto
 
+/-- byte string as `2·k` hex digits in memory order (`[]` = empty string). -/
+def parseHexBytes? (s : String) : Option (List UInt8) :=
+  if s == "[]" then some [] else
+  let rec go : List Char → Option (List UInt8)
+    | [] => some []
+    | [_] => none
+    | h :: l :: rest =>
+      match hexDigit? h, hexDigit? l, go rest with
+      | some h, some l, some bs => some ((16 * h + l).toUInt8 :: bs)
+      | _, _, _ => none
+  go s.toList
+
+/-- `LfsrLengthStr` result of the word-level C++ model; `ub` = out-of-bounds vector access. -/
+def fmtCpp : Option Int → String
+  | none => "ub"
+  | some r => hexInt r
+
 /-- C14 operations.
+`bm.cpp_portable hexbytes n`   word-level model of the portable C++ `LfsrLengthStr`
+`bm.cpp_clmul hexbytes n`      word-level model of the CLMUL C++ `LfsrLengthStr`
+`bm.clmul x y`                 model of the intrinsic: `hi,lo`
 `bm.native s len`      LinearComplexityNative
 `bm.wrapper s len`     LinearComplexity (Python wrapper + C++ result)
 `bm.cpp nbytes s n`    LfsrLengthStr on the `nbytes` little-endian bytes of `s`
@@ -22,6 +43,16 @@ def bmOps : Dispatcher := fun op args =>
   | "bm.cpp", [nb, s, n] => do
       let nb ← parseNat? nb; let s ← parseNat? s; let n ← parseInt? n
       pure (hexInt (lfsrLengthStr nb s n))
+  | "bm.cpp_portable", [bs, n] => do
+      let bs ← parseHexBytes? bs; let n ← parseInt? n
+      pure (fmtCpp (BMCpp.lfsrLengthStr .portable bs n))
+  | "bm.cpp_clmul", [bs, n] => do
+      let bs ← parseHexBytes? bs; let n ← parseInt? n
+      pure (fmtCpp (BMCpp.lfsrLengthStr .clmul bs n))
+  | "bm.clmul", [x, y] => do
+      let x ← parseNat? x; let y ← parseNat? y
+      let r := BMCpp.clmul x.toUInt64 y.toUInt64
+      pure (hexNat r.1.toNat ++ "," ++ hexNat r.2.toNat)
   | "bm.count", [n, m] => do
       let n ← parseInt? n; let m ← parseInt? m; pure (hexNat (lfsrCount n m))
   | "bm.count_repaired", [n, m] => do
